@@ -31,8 +31,14 @@ class Primitive(Trimesh):
     Mesh is generated lazily when vertices or faces are requested.
     """
 
-    # ignore superclass copy directives which pass `include_cache`
-    __deepcopy__ = None
+    def __deepcopy__(self, *args):
+        # the generic deep copy would also deep copy the cache and the
+        # spatial indexes in it do not survive that: build a new object
+        copied = self.copy(mutable=self.primitive._mutable)
+        # `copy` does not carry these but the generic deep copy did
+        copied.vertex_attributes = deepcopy(self.vertex_attributes)
+        copied.face_attributes = deepcopy(self.face_attributes)
+        return copied
 
     def __copy__(self, *args):
         return self.copy()
